@@ -413,8 +413,14 @@ fn parse_input_archive_config(
     ))
 }
 
-fn parse_hash_sum(hex_str: &str) -> Result<HashSum, std::num::ParseIntError> {
-    hex_str_to_vec(hex_str).map(HashSum::from)
+fn parse_hash_sum(
+    hex_str: &str,
+) -> Result<HashSum, Box<dyn std::error::Error + Send + Sync + 'static>> {
+    let sum = hex_str_to_vec(hex_str)?;
+    if sum.len() > HashSum::MAX_LEN {
+        return Err("checksum is too long".into());
+    }
+    Ok(HashSum::from(sum))
 }
 
 fn add_archive_input_http_args(cmd: Command) -> Command {
